@@ -30,9 +30,18 @@ func (s ExploreUnion) Interests() []datamodel.PathSegment {
 	}
 	// Accumulate the whitelist of interesting path segments.
 	// TODO: Dedup?
+	// Members may name the same child; list it once (first occurrence keeps its place),
+	// otherwise the walk would visit that child once per member that names it.
 	v := []datamodel.PathSegment{}
+	seen := map[string]struct{}{}
 	for _, m := range s.Members {
-		v = append(v, m.Interests()...)
+		for _, ps := range m.Interests() {
+			if _, dup := seen[ps.String()]; dup {
+				continue
+			}
+			seen[ps.String()] = struct{}{}
+			v = append(v, ps)
+		}
 	}
 	return v
 }
